@@ -22,7 +22,7 @@ for d in with without; do
 done
 if cmp -s "$S/with.out" "$S/without.out"; then echo "$sid: demonstration does not distinguish the change"; exit 1; fi
 D=/verif/seeded/$sid; mkdir -p "$D"
-cp "$src/patch.diff" "$src/demo.sh" "$src/README.md" "$D/"; [ -d "$src/demo" ] && cp -r "$src/demo" "$D/"
+cp -r "$src"/. "$D/"
 cp "$S/with.out" "$D/demo.with.out"; cp "$S/without.out" "$D/demo.without.out"
 python3 - "$D" "$sid" "$prop" "$base" <<'PY'
 import json, sys, re
